@@ -18,9 +18,18 @@ func init() { register(&profile{id: "C06", num: 6, name: "robust-parse", run: ru
 
 // coreWorlds are the hand-written worlds; miniWorlds port the grammar shapes of the repository's
 // own parser tests; exampleWorlds port the grammars under _examples.
-var coreWorlds = []*world{worldIni, worldExpr, worldHeredoc, worldBasic, worldConformance, worldCallbacks, worldDurations, worldMisc}
+var coreWorlds = []*world{worldIni, worldExpr, worldHeredoc, worldBasic, worldConformance, worldCallbacks, worldDurations, worldMisc, worldTuple}
 
 var robustWorlds = append(append(append([]*world{}, coreWorlds...), miniWorlds...), exampleWorlds...)
+
+// pickAnyParser is pickWorld for the profiles whose property quantifies over every parser, also
+// ones built from a grammar the library considers buggy.
+func pickAnyParser() *world {
+	if simrt.Choose(24) == 1 {
+		return worldBuggy
+	}
+	return pickWorld()
+}
 
 // pickWorld draws a world: half of the time a core world, otherwise a mini or an example world.
 func pickWorld() *world {
@@ -100,7 +109,7 @@ func robustOne(rc *RunCtx) *Violation {
 	x, dc := drawDoc(w, delims, 40, true)
 	d := x
 	var fired []string
-	if subBatch != "faultfree" {
+	if subBatch != "faultfree" && !w.verbatim {
 		d, fired = deriveInput(rc, x, nil, allContentFaults)
 	}
 	filename := "in.txt"
@@ -233,8 +242,11 @@ func robustOne(rc *RunCtx) *Violation {
 			return viol(entry+"/error-not-participle.Error", fmt.Sprintf("error of type %T does not implement participle.Error: %v", res.Err, res.Err))
 		}
 		errType = fmt.Sprintf("%T", res.Err)
-		pos := perr.Position()
-		msg := perr.Message()
+		var pos lexer.Position
+		var msg, text string
+		if pn := catch(func() { pos = perr.Position(); msg = perr.Message(); text = res.Err.Error() }); pn != "" {
+			return viol(entry+"/error-rendering-panics:"+sigNorm(pn), fmt.Sprintf("Position() / Message() / Error() of the returned %T panicked: %s", res.Err, pn))
+		}
 		if pos.Filename != filename {
 			return viol(entry+"/error-filename", fmt.Sprintf("error position %s carries filename %q, supplied %q (error %T: %v)", pos.GoString(), pos.Filename, filename, res.Err, res.Err))
 		}
@@ -249,7 +261,7 @@ func robustOne(rc *RunCtx) *Violation {
 		if filename != "" {
 			want = filename + ":" + want
 		}
-		if got := res.Err.Error(); got != want {
+		if got := text; got != want {
 			return viol(entry+"/error-text", fmt.Sprintf("Error() = %q, want position prefix + Message() = %q", got, want))
 		}
 		if ut, ok := res.Err.(*participle.UnexpectedTokenError); ok {
